@@ -398,6 +398,27 @@ def short(v):
     return repr(v).replace(" ", "")[:70]
 
 
+RT_SLOTS = {}
+RT_LIMIT = 8
+
+
+def rt_check(h, ok, key, chan, res, what, case):
+    """A round-trip check. One defect (e.g. Decimal travelling through float) fails for unboundedly many values; the first
+    RT_LIMIT failing values per (type, channel, symptom) are listed under their own key, later ones under one '+more' key per
+    (type, channel, symptom), so that the evidence file keeps room for violations with a different symptom."""
+    if ok:
+        return h.check(True, key + ":" + chan)
+    RT_SLOTS["fails"] = RT_SLOTS.get("fails", 0) + 1
+    symptom = "differs" if res[0] == "ok" else str(res[1]) if res[0] == "exc" else "exit"
+    tn = key.split(":")[2]
+    slot = (tn, chan.split(":")[0], symptom)
+    RT_SLOTS[slot] = RT_SLOTS.get(slot, 0) + 1
+    if RT_SLOTS[slot] > RT_LIMIT:
+        return h.check(False, f"c20:roundtrip:{tn}:+more:{slot[1]}:{symptom}", f"more than {RT_LIMIT} values of {tn} fail through '{slot[1]}' with symptom '{symptom}'; "
+                       "totals are in the notes. First one not listed: " + what, case)
+    return h.check(False, key + ":" + chan, what, case)
+
+
 def part_c(h, tmp):
     vals = values_for(h.thorough, h.rng)
     cfg_file = os.path.join(tmp, "c.cfg")
@@ -418,7 +439,7 @@ def part_c(h, tmp):
             if sig in seen:
                 continue
             seen.add(sig)
-            nviol = len(h.viol_keys)
+            nviol = (len(h.viol_keys), RT_SLOTS.get("fails", 0))
             case = {"parser": f"add_argument('--k', type={tn})", "value": repr(v)[:120]}
             ser_res = outcome(handler.serializer, v)
             ser = ser_res[1] if ser_res[0] == "ok" else None
@@ -428,10 +449,10 @@ def part_c(h, tmp):
             pair_ok = False
             if h.check(ser_res[0] == "ok", key + ":serialize", f"serializer failed: {ser_res}", case):
                 back = outcome(handler.deserializer, ser)
-                pair_ok = h.check(back[0] == "ok" and nan_eq(back[1], v), key + ":pair", f"deserializer(serializer(v)) = {back[1] if back[0] == 'ok' else back!r} via {ser!r}", case)
+                pair_ok = rt_check(h, back[0] == "ok" and nan_eq(back[1], v), key, "pair", back, f"deserializer(serializer(v)) = {back[1] if back[0] == 'ok' else back!r} via {ser!r}"[:300], case)
             # (2) a value that already has the type is taken as it is
             res = outcome(p.parse_object, {"k": v})
-            h.check(res[0] == "ok" and nan_eq(res[1].k, v), key + ":object", f"parse_object of the value gives {res!r}"[:300], case)
+            rt_check(h, res[0] == "ok" and nan_eq(res[1].k, v), key, "object", res, f"parse_object of the value gives {res!r}"[:300], case)
             # (3) dump, then read the dump back: config file (yaml and json dump) and command line.
             #     When the pair itself already loses the value, the file channels (dump = serializer, load = deserializer)
             #     cannot do better and are not reported a second time; the command line takes another route (text) and is.
@@ -467,11 +488,11 @@ def part_c(h, tmp):
                 for chan, fn, args in chans:
                     r = outcome(fn, *args)
                     ok = r[0] == "ok" and nan_eq(r[1].k, v)
-                    ckey = f"{key}:{chan}" if chan != "argv" or len(argv_done) == 1 else f"{key}:argv:{args[0][0][4:]}"[:148]
-                    h.check(ok, ckey, f"{chan}: got {(r[1].k if r[0] == 'ok' else r)!r}, expected {v!r}"[:300], {**case2, "input": repr(args)[:200] if chan == "argv" else text[:200]})
+                    cname = chan if chan != "argv" or len(argv_done) == 1 else f"argv:{args[0][0][4:]}"[:40]
+                    rt_check(h, ok, key, cname, r, f"{chan}: got {(r[1].k if r[0] == 'ok' else r)!r}, expected {v!r}"[:300], {**case2, "input": repr(args)[:200] if chan == "argv" else text[:200]})
             counts[tn] = counts.get(tn, 0) + 1
             h.nontrivial(("C", tn, repr(v)))
-            if len(h.viol_keys) == nviol:
+            if (len(h.viol_keys), RT_SLOTS.get("fails", 0)) == nviol:
                 clean.append(v)
         # the type inside containers (values that pass alone, so that only the container context is new)
         picks = [clean[i] for i in sorted({0, 1, len(clean) // 3, len(clean) // 2, len(clean) - 1}) if 0 <= i < len(clean)]
@@ -499,6 +520,7 @@ def part_c(h, tmp):
                     h.check(r[0] == "ok" and nan_eq(r[1].k, value), f"{key}:{chan}", f"{chan}: got {(r[1].k if r[0] == 'ok' else r)!r}, expected {value!r}"[:300], {**case, "dump": d[1][:200]})
             h.nontrivial(("C-nested", hname))
     h.note(f"C: distinct values per type {counts}")
+    h.note("C: failing round trips per (type, channel, symptom): " + "; ".join(f"{k[0]}/{k[1]}/{k[2]}={n}" for k, n in sorted((k, n) for k, n in RT_SLOTS.items() if k != "fails")))
 
 
 # --------------------------------------------------------------------------------------------------------------------
